@@ -121,10 +121,18 @@ def run(res, b, tier, seed):
     quick = tier == "quick"
     batches = []
     total = 0
+    spec_dis, model_lines_by = [], {}
     for fn in SIGS:
         tuples = arg_tuples(rng, fn, quick)
         # what Go returns
         rc, golines, err = common.run_lines([b.tshdump, "gostrings"], [fn + " " + " ".join(enc_arg(a) for a in t) for t in tuples])
+        reqs = [fn + " " + " ".join(enc_arg(a) for a in t) for t in tuples]
+        spec = pipeline.model_lines(b, ["STRS " + r for r in reqs])
+        modl = pipeline.model_lines(b, ["STRM " + r for r in reqs])
+        for t, g, sp, ml in zip(tuples, golines, spec, modl):
+            if sp != g:
+                spec_dis.append((fn, t, g, sp))
+            model_lines_by[(fn, repr(t))] = ml
         pairs = [(t, g) for t, g in zip(tuples, golines) if g != "panic"]
         total += len(pairs)
         size = 60
@@ -147,6 +155,7 @@ def run(res, b, tier, seed):
             runnable.append(c)
     runs = common.pmap_proc(_exec, [bytes.fromhex(c.out["BASH"][1]) for c in runnable])
     per_fn = {}
+    model_dis = []
     for c, r in zip(runnable, runs):
         got = r["stdout"].decode("latin1").split("\n")
         # split output per call at the "#k" markers
@@ -168,6 +177,9 @@ def run(res, b, tier, seed):
             if have != want:
                 per_fn[c.meta["fn"]][1] += 1
                 fails.append((c.meta["fn"], t, "result differs from Go", want, have))
+            ml = model_lines_by.get((c.meta["fn"], repr(t)))
+            if ml is None or ml in ("CRASH", "unknown", "BADREQ") or expected_lines(c.meta["fn"], ml) != have:
+                model_dis.append((c.meta["fn"], t, ml, have))
         if r["stderr"] != b"":
             fails.append((c.meta["fn"], None, "stderr: " + r["stderr"].decode("latin1")[:300], None, None))
     res.coverage.update(dict(
@@ -180,6 +192,8 @@ def run(res, b, tier, seed):
              "bash and compared with Go's strings package (harness mode gostrings); distinct = tuples",
         samples=[dict(function=batches[0].meta["fn"], args=[str(t) for t, _ in batches[0].meta["chunk"][:3]], program=batches[0].meta["src"][:300])],
         per_function={k: dict(calls=v[0], differing=v[1]) for k, v in per_fn.items()},
+        correspondence=dict(stage="Lean rendering of std/strings.tsh (Std.Lib, STRM) vs the compiled and executed library; Lean specification (Std.Go, STRS) vs Go's strings package",
+                            compared=total, disagreements=len(model_dis), spec_vs_go_disagreements=len(spec_dis)),
         oracle_failures=len(fails),
     ))
     real = []
@@ -194,7 +208,15 @@ def run(res, b, tier, seed):
             break
         res.violation("oracle", dict(function=fn, args=[a for a in t] if t else None, what=what, go=want, typeshell=have,
                                      program=program(fn, [t]) if t else None))
-    if not real and not pr["ok"]:
+    if not real and spec_dis:
+        fn, t, g, sp = spec_dis[0]
+        res.violation("validation-tie", dict(what="the Lean specification of Go's strings package differs from the package", function=fn, args=list(t), go=g, lean_spec=sp,
+                                             count=len(spec_dis)), no_input=True)
+    elif not real and model_dis:
+        fn, t, ml, have = model_dis[0]
+        res.violation("correspondence", dict(what="the Lean rendering of std/strings.tsh differs from the executed library", function=fn, args=list(t), lean_model=ml,
+                                             typeshell=have, count=len(model_dis)), no_input=True)
+    elif not real and not pr["ok"]:
         res.violation("theorem", dict(broken=pr["broken"], log=pr["log"][-3000:]), no_input=True)
 
 
